@@ -5,7 +5,9 @@ package interpreter
 import (
 	"context"
 
+	"github.com/tetratelabs/wazero/internal/leb128"
 	"github.com/tetratelabs/wazero/internal/verifrt"
+	"github.com/tetratelabs/wazero/internal/wasm/binary"
 )
 
 var verifConstOf = map[byte][]byte{vI32: {0x41, 0x05}, vI64: {0x42, 0x05}, vF32: {0x43, 0, 0, 0xa0, 0x40}, vF64: {0x44, 0, 0, 0, 0, 0, 0, 0x14, 0x40}}
@@ -36,4 +38,51 @@ func VerifC03_IfBlockTypes() {
 		}
 	}
 	verifrt.Cover("accepted")
+}
+
+// verifInsertBeforeCode inserts a section before the code section (id 10).
+func verifInsertBeforeCode(bin []byte, section []byte) []byte {
+	i := 8
+	for i < len(bin) {
+		if bin[i] == 10 {
+			out := append([]byte{}, bin[:i]...)
+			out = append(out, section...)
+			return append(out, bin[i:]...)
+		}
+		sz, n, _ := leb128.LoadUint32(bin[i+1:])
+		i += 1 + int(n) + int(sz)
+	}
+	return append(bin, section...)
+}
+
+// VerifC03_RefFuncIndex: `ref.func x` in a function body is valid exactly when x is a function index the module declares
+// outside function bodies (exports, element segments, global initialisers). The module declares functions 0 (export) and 1
+// (element item `ref.func 1`); its element segment also holds an item `global.get 0` (resolved from an imported funcref
+// global), which declares no function. For EVERY 32-bit x (patched into the body as a 5-byte LEB128): decode + Validate
+// accept iff x is 0 or 1.
+func VerifC03_RefFuncIndex() {
+	x := verifrt.U32("x")
+	body := []byte{0xd2, byte(x) | 0x80, byte(x>>7) | 0x80, byte(x>>14) | 0x80, byte(x>>21) | 0x80, byte(x>>28) & 0x0f, 0x1a}
+	m := &verifModule{tableMin: 2,
+		imports: []verifImport{{module: "A", name: "g", kind: 3, desc: []byte{0x70, 0x00}}},
+		funcs: []verifFunc{
+			{export: "f", body: body},
+			{body: []byte{0x01}},
+			{body: []byte{0x01}},
+		}}
+	// element segment, flag 4 (active, table 0, expression items): offset i32.const 0 ; items: global.get 0 ; ref.func 1
+	elem := []byte{0x04, 0x41, 0x00, 0x0b, 0x02, 0x23, 0x00, 0x0b, 0xd2, 0x01, 0x0b}
+	bin := verifInsertBeforeCode(m.encode(), vSection(9, vVec(elem)))
+	mod, err := binary.DecodeModule(bin, verifFeatures, 65536, false, false, false)
+	verifrt.Assert(err == nil, "the module decodes")
+	if err != nil {
+		return
+	}
+	err = mod.Validate(verifFeatures)
+	verifrt.Assert((err == nil) == (x == 0 || x == 1), "ref.func x is accepted exactly when x is a declared function index")
+	if err == nil {
+		verifrt.Cover("accepted")
+	} else {
+		verifrt.Cover("rejected")
+	}
 }
